@@ -5,9 +5,23 @@
 //! words plus a flag `1` when the result is stored canonically (no leading zero word, inline iff
 //! at most two words).
 //! Kernel ops (`kmul`, `ksqr`) drive the word-slice multipliers through `dashu_int::verif_hooks`.
+//!
+//! The binary is built twice (CONFIGS default / w32 = `--cfg force_bits="32"`).  Every answer carries the word size of
+//! the build as a token `W40` / `W20`, so that the oracle runs the word-level models at that word size.  `kmul`, `ksqr`,
+//! `kmem` give lengths in 64-bit words (the 32-bit build doubles them: same operand values, twice the words);
+//! `kmul32`, `ksqr32` give lengths in 32-bit words (`kmul64`: in 64-bit words, 64-bit build only) and `wk` (one word kernel of add.rs / mul/mod.rs through
+//! `verif_hooks::word_kernel`) names its word size: they run on the matching build only (`ok na NATIVE` elsewhere).
+//! Answers with the token `NATIVE` are per build (not compared between the builds).
 use dashu_int::verif_hooks as vh;
-use dashu_int::{IBig, UBig, Word};
+use dashu_int::{DoubleWord, IBig, UBig, Word};
 use hlib::*;
+
+/// 64-bit words per word of this build's kernels: 1, or 2 for the 32-bit build
+const SCALE: usize = 64 / (vh::WORD_BITS as usize);
+
+fn wtag() -> String {
+    format!("W{:x}", vh::WORD_BITS)
+}
 
 fn canon_u(x: &UBig) -> u8 {
     let w = x.as_words();
@@ -26,10 +40,10 @@ fn canon_i(x: &IBig) -> u8 {
 }
 
 fn ou(x: UBig) -> String {
-    format!("ok {} {}", hu(&x), canon_u(&x))
+    format!("ok {} {} {}", hu(&x), canon_u(&x), wtag())
 }
 fn oi(x: IBig) -> String {
-    format!("ok {} {}", hi(&x), canon_i(&x))
+    format!("ok {} {} {}", hi(&x), canon_i(&x), wtag())
 }
 
 macro_rules! forms6 {
@@ -202,29 +216,54 @@ fn run(op: &str, a: &[&str]) -> String {
         "upow" => ou(ubig(a[0]).pow(usz(a[1]))),
         "ipow" => oi(ibig(a[0]).pow(usz(a[1]))),
         // ---------------------------------------------------------------- kernels through the hooks
-        // kmul which positive la lb c a b  ->  ok c' carry
-        "kmul" => {
+        // kmul which positive la lb c a b  ->  ok c' carry    (lengths in 64-bit words; kmul32: in 32-bit words)
+        "kmul" | "kmul32" | "kmul64" => {
+            if (op == "kmul32" && vh::WORD_BITS != 32) || (op == "kmul64" && vh::WORD_BITS != 64) {
+                return "ok na NATIVE".to_string();
+            }
+            let sc = if op == "kmul" { SCALE } else { 1 };
             let which = usz(a[0]) as u8;
             let positive = a[1] == "1";
-            let (la, lb) = (usz(a[2]), usz(a[3]));
+            let (la, lb) = (sc * usz(a[2]), sc * usz(a[3]));
             let mut c = padded(a[4], la + lb);
             let x = padded(a[5], la);
             let y = padded(a[6], lb);
             let carry = vh::mul_kernel(which, &mut c, positive, &x, &y);
-            format!("ok {} {}", words_hex(false, &c), hisz(carry as isize))
+            format!("ok {} {} {}{}", words_hex(false, &c), hisz(carry as isize), wtag(), if op != "kmul" { " NATIVE" } else { "" })
         }
         // ksqr la a -> ok b
-        "ksqr" => {
-            let la = usz(a[0]);
+        "ksqr" | "ksqr32" => {
+            if op == "ksqr32" && vh::WORD_BITS != 32 {
+                return "ok na NATIVE".to_string();
+            }
+            let la = usz(a[0]) * if op == "ksqr" { SCALE } else { 1 };
             let x = padded(a[1], la);
             let mut b = vec![0 as Word; 2 * la];
             vh::sqr_kernel(&mut b, &x);
-            format!("ok {}", words_hex(false, &b))
+            format!("ok {} {}{}", words_hex(false, &b), wtag(), if op == "ksqr32" { " NATIVE" } else { "" })
+        }
+        // wk wordbits which llen rlen lhs rhs x sx -> ok lhs' magnitude negative?   (one kernel of add.rs / mul/mod.rs)
+        "wk" => {
+            if usz(a[0]) != vh::WORD_BITS as usize {
+                return "ok na NATIVE".to_string();
+            }
+            let which = usz(a[1]) as u8;
+            let mut lhs = padded(a[4], usz(a[2]));
+            let rhs = padded(a[5], usz(a[3]));
+            let xw = padded(a[6], 2);
+            let x = (xw[0] as DoubleWord) | ((xw[1] as DoubleWord) << vh::WORD_BITS);
+            let sx: i128 = match a[7].strip_prefix('-') {
+                Some(b) => -(i128::from_str_radix(b, 16).expect("signed word")),
+                None => i128::from_str_radix(a[7], 16).expect("signed word"),
+            };
+            assert!(sx >= -(1i128 << (vh::WORD_BITS - 1)) && sx < (1i128 << (vh::WORD_BITS - 1)), "signed word");
+            let (mag, neg) = vh::word_kernel(which, &mut lhs, &rhs, x, sx as _);
+            format!("ok {} {:x} {} {} NATIVE", words_hex(false, &lhs), mag, neg as u8, wtag())
         }
         // kmem la lb -> ok <words reserved by mul::memory_requirement_exact> <least number of scratch words with which
         //                   mul::add_signed_mul runs through> (the allocator panics when a kernel asks for more)
         "kmem" => {
-            let (la, lb) = (usz(a[0]), usz(a[1]));
+            let (la, lb) = (SCALE * usz(a[0]), SCALE * usz(a[1]));
             let x = vec![Word::MAX; la];
             let y = vec![Word::MAX - 1; lb];
             let reserved = vh::mul_scratch_words(la + lb, la, lb);
@@ -249,11 +288,11 @@ fn run(op: &str, a: &[&str]) -> String {
                     lo = mid + 1;
                 }
             }
-            format!("ok {:x} {:x}", reserved, lo)
+            format!("ok {:x} {:x} {} NATIVE", reserved, lo, wtag())
         }
         "params" => {
             let (t1, t2, m1, m2) = vh::MUL_PARAMS;
-            format!("ok {:x} {:x} {:x} {:x} {:x}", t1, t2, m1, m2, vh::WORD_BITS)
+            format!("ok {:x} {:x} {:x} {:x} {:x} NATIVE", t1, t2, m1, m2, vh::WORD_BITS)
         }
         _ => format!("unknown-op {}", op),
     }
